@@ -344,7 +344,7 @@ pub fn key_from_json(k: &Value) -> BatchKey {
 }
 
 /// Informational only (never compared): which rejection the message names.
-fn classify(msg: &str) -> &'static str {
+pub(crate) fn classify(msg: &str) -> &'static str {
     if msg.contains("pool is full") { "Full" }
     else if msg.contains("length mismatch") || msg.contains("failed to parse") { "Shape" }
     else if msg.contains("all-dummy") { "Dummy" }
